@@ -11,6 +11,8 @@ GENLM_REPO=$wt VERIF_GEN_OUT=$tmp /venv/bin/python -c "from harness import trans
 if diff -rq $tmp lean/GenlmModel/Generated >/dev/null 2>&1; then
   rm -rf $tmp; bash harness/validate_mutant_wt.sh $id
 else
-  rm -rf $tmp; git -C /repo worktree remove --force $wt 2>/dev/null
-  flock /tmp/mut/.repo.lock bash harness/validate_batch.sh $id
+  # the translator generates other definitions from this tree: give the run its own copy of the lake project (never touch /repo)
+  rm -rf $tmp /tmp/mut/${id}_lean; cp -r lean /tmp/mut/${id}_lean
+  VERIF_LEAN=/tmp/mut/${id}_lean bash harness/validate_mutant_wt.sh $id
+  rm -rf /tmp/mut/${id}_lean
 fi
